@@ -560,12 +560,28 @@ def fullmatch_t(regex, path) -> tm.T:
     return cur().decls.fun("re.fullmatch", [STR, STR], BOOL)(S(regex), S(path))
 
 
+class _MatchResult:
+    """What fullmatch returns: a match object or None.  Only its truth value and `is None` are used."""
+
+    def __init__(self, t):
+        self.t = t
+
+    def __symtruth__(self):
+        return self.t
+
+    def __bool__(self):
+        return cur().fork(self.t)
+
+    def __symisnone__(self):
+        return tm.Not(self.t)
+
+
 class _Compiled:
     def __init__(self, regex):
         self.regex = regex
 
     def fullmatch(self, path):
-        return wrap_bool(fullmatch_t(self.regex, path))
+        return _MatchResult(fullmatch_t(self.regex, path))
 
 
 class ReStub:
@@ -1298,6 +1314,6 @@ _sf.loops = {
     0: LoopSpec(locals=dict(resolved=ty.SeqOf(ty.TupleOf(_FileRec, ty.EnumOf(FileState), ty.Bool, ty.Bool))),
                 invariant=_sf_inv, havoc=("self",), modifies={"self": ["db"]}),
     1: LoopSpec(locals=dict(new_file_is=ty.SeqOf(ty.Int)), invariant=lambda e: [_sf_inv(e), _sf_collected(e)]),
-    2: LoopSpec(locals=dict(comp_ret3=ty.SeqOf(_SupplyRec)), invariant=_sf_inv, havoc=("self",),
+    2: LoopSpec(locals={"@acc": ty.SeqOf(_SupplyRec)}, invariant=_sf_inv, havoc=("self",),
                 modifies={"self": ["db"]}),
 }
